@@ -15,6 +15,7 @@ import (
 	"encoding/json"
 	"fmt"
 	"regexp"
+	"strings"
 	"sync"
 	"sync/atomic"
 	"time"
@@ -396,6 +397,98 @@ func init() {
 		case <-time.After(time.Duration(waitMs) * time.Millisecond):
 			out["class"] = "running"
 			out["elapsed_ms"] = waitMs
+		}
+		return out
+	})
+}
+
+// c14.parented: the limit (and Env.Location) of a script is the one of the location whose rule it is, also when the location
+// has parents and the rule's condition searches facts (the search visits the ancestors and points the Context at each).
+// case: {"child_ns", "parent_ns", "where": "action"|"condition"|"script", "wait_ms"}
+func init() {
+	register("c14.parented", func(c map[string]interface{}) interface{} {
+		saveOn := core.SystemParameters.JavascriptTimeouts
+		defer func() { core.SystemParameters.JavascriptTimeouts = saveOn }()
+		core.SystemParameters.JavascriptTimeouts = true
+		childT, _ := c14Dur(c["child_ns"])
+		parentT, _ := c14Dur(c["parent_ns"])
+		where, _ := c["where"].(string)
+		waitMs, _ := c["wait_ms"].(float64)
+		ctx := newCtx()
+		mk := func(name string, d time.Duration) (*core.Location, error) {
+			l, err := core.NewLocation(ctx, name, nil, nil)
+			if err != nil {
+				return nil, err
+			}
+			ctl := core.DefaultControl()
+			ctl.Verbosity = core.NOTHING
+			ctl.JavascriptTimeout = core.Duration(d)
+			l.SetControl(ctl)
+			return l, nil
+		}
+		parent, err := mk("c14parent", parentT)
+		if err != nil {
+			return map[string]interface{}{"err": "setup: " + err.Error()}
+		}
+		child, err := mk("c14child", childT)
+		if err != nil {
+			return map[string]interface{}{"err": "setup: " + err.Error()}
+		}
+		child.Provider = core.NewSimpleLocationProvider(map[string]*core.Location{"c14parent": parent})
+		if _, err = child.SetParents(ctx, []string{"c14parent"}); err != nil {
+			return map[string]interface{}{"err": "setup: " + err.Error()}
+		}
+		if _, err = parent.AddFact(ctx, "pf", core.Map{"have": "chips"}); err != nil {
+			return map[string]interface{}{"err": "setup: " + err.Error()}
+		}
+		if _, err = child.AddFact(ctx, "cf", core.Map{"have": "tacos"}); err != nil {
+			return map[string]interface{}{"err": "setup: " + err.Error()}
+		}
+		var rule string
+		switch where {
+		case "action":
+			rule = `{"when":{"pattern":{"spin":"?x"}},"condition":{"pattern":{"have":"?y"}},"action":{"code":"while (true) {}"}}`
+		case "condition":
+			rule = `{"when":{"pattern":{"spin":"?x"}},"condition":{"and":[{"pattern":{"have":"?y"}},{"code":"while (true) {}"}]},"action":{"code":"1"}}`
+		default: // the action names the location it runs in, then spins
+			rule = `{"when":{"pattern":{"spin":"?x"}},"condition":{"pattern":{"have":"?y"}},"action":{"code":"Env.AddFact('where', {seenAt: Env.Location}); while (true) {}"}}`
+		}
+		var rm map[string]interface{}
+		if err = json.Unmarshal([]byte(rule), &rm); err != nil {
+			return map[string]interface{}{"err": "setup: " + err.Error()}
+		}
+		if _, err = child.AddRule(ctx, "spin", core.Map(rm)); err != nil {
+			return map[string]interface{}{"err": "setup: " + err.Error()}
+		}
+		done := make(chan map[string]interface{}, 1)
+		start := time.Now()
+		go func() {
+			fr, cond := child.ProcessEvent(ctx, core.Map{"spin": "now"})
+			r := map[string]interface{}{"elapsed_ms": float64(time.Since(start)) / float64(time.Millisecond)}
+			if cond != nil {
+				r["cond"] = cond.Msg
+			}
+			js, _ := json.Marshal(fr)
+			r["timedout"] = strings.Contains(string(js), "timed out")
+			done <- r
+		}()
+		out := map[string]interface{}{}
+		select {
+		case r := <-done:
+			out = r
+			out["class"] = "returned"
+		case <-time.After(time.Duration(waitMs) * time.Millisecond):
+			out["class"] = "running"
+			out["elapsed_ms"] = waitMs
+		}
+		if where == "script" {
+			c2 := newCtx()
+			if f, err := child.GetFact(c2, "where"); err == nil && f != nil {
+				out["seenAt"] = f["seenAt"]
+			} else if f, err := parent.GetFact(c2, "where"); err == nil && f != nil {
+				out["seenAt"] = f["seenAt"]
+				out["addedTo"] = "parent"
+			}
 		}
 		return out
 	})
